@@ -77,12 +77,15 @@ structure Item where
 structure Dim where
   items : List Item
   mrIns : Bool := false                  -- `_has_mr_insertion`: MR_SUBVAR with non-empty view insertions
+  noSubvarIds : Bool := false            -- some element lacks the optional `value.id`: `_subvar_ids` is `()` (KeyError)
   deriving DecidableEq, Repr, Inhabited
 
 namespace Dim
 def aliases (d : Dim) : List String := d.items.map (·.alias)          -- `_subvar_aliases`
 def eids (d : Dim) : List Int := d.items.map (·.eid)                  -- `_raw_element_ids`
-def subvarIds (d : Dim) : List String := d.items.map (·.subvarId)     -- `_subvar_ids`
+/-- `_subvar_ids`: all-or-nothing — one element without `value.id` (a fused-variables dimension)
+    empties the tuple, so the sub-variable-id rule and the `"key": "subvar_id"` mode match nothing -/
+def subvarIds (d : Dim) : List String := if d.noSubvarIds then [] else d.items.map (·.subvarId)
 def size (d : Dim) : Nat := d.items.length
 end Dim
 
